@@ -132,16 +132,40 @@ def membership(test, pol, elem):
     return 0
 
 
+def registration(repo):
+    """(add, function whose body does the book-keeping, its element parameter, helper name or None): `add` may delegate the seven
+    updates to one private helper `self._h(x)` - the helper is then analysed in its place and every call site of the helper must
+    itself be guarded by non-membership."""
+    fn = repo.func(UF, UFC + ".add")
+    ps = au.params(fn, skip_self=True)
+    if len(ps) != 1:
+        return fn, fn, None, None
+    if not field_writes(fn):
+        cls = repo.cls(UF, UFC)
+        methods = {st.name: st for st in cls.body if isinstance(st, ast.FunctionDef)}
+        calls = [c for c in au.calls(fn) if isinstance(c.func, ast.Attribute) and au.is_self_attr(c.func) and c.func.attr in methods
+                 and len(c.args) == 1 and not c.keywords and au.src(c.args[0]) == ps[0] and field_writes(methods[c.func.attr])]
+        if len(calls) == 1:
+            h = methods[calls[0].func.attr]
+            hps = au.params(h, skip_self=True)
+            if len(hps) == 1:
+                return fn, h, hps[0], h.name
+    return fn, fn, ps[0], None
+
+
+def uf_mutators(repo):
+    h = registration(repo)[3]
+    return UF_MUTATORS | ({h} if h else set())
+
+
 # ----------------------------------------------------------------- C20-U1 add
 def u1_add(ctx):
     repo = ctx.repo
-    fn = repo.func(UF, UFC + ".add")
+    add_fn, fn, x, helper = registration(repo)
     site = ctx.site(UF, fn)
-    ps = au.params(fn, skip_self=True)
-    if len(ps) != 1:
-        ctx.fail("C20-U1", site, "add(x) signature not found", "")
+    if x is None:
+        ctx.fail("C20-U1", ctx.site(UF, add_fn), "add(x) signature not found", "")
         return
-    x = ps[0]
     ws = field_writes(fn)
     by_field = {}
     for f, k, n, st in ws:
@@ -164,11 +188,26 @@ def u1_add(ctx):
     ctx.check(len(blocks) == 1 and all(c == conds[0] for c in conds), "C20-U1", site,
               "the seven book-keeping updates of add are not in one block under the same conditions",
               "a conditional update desynchronises the tables", note="seven updates in one block")
-    facts = [membership(t, p, x) for t, p in U.dominating_conditions(stm["_elts"])]
-    ctx.check(-1 in facts and 1 not in facts, "C20-U1", site,
-              f"the book-keeping of add is not guarded by `{x} not in self`",
-              "adding an element twice must be a no-op: otherwise it gets a second index, n_elts / n_comps over-count and the old node is orphaned",
-              note="add is idempotent (non-membership guard)")
+    if helper is None:
+        facts = [membership(t, p, x) for t, p in U.dominating_conditions(stm["_elts"])]
+        ctx.check(-1 in facts and 1 not in facts, "C20-U1", site,
+                  f"the book-keeping of add is not guarded by `{x} not in self`",
+                  "adding an element twice must be a no-op: otherwise it gets a second index, n_elts / n_comps over-count and the old node is orphaned",
+                  note="add is idempotent (non-membership guard)")
+    else:
+        # the unchecked helper registers unconditionally: each of its call sites must establish non-membership itself, at the call
+        for st_ in repo.cls(UF, UFC).body:
+            if not isinstance(st_, ast.FunctionDef):
+                continue
+            for c in au.calls(st_):
+                if isinstance(c.func, ast.Attribute) and au.is_self_attr(c.func, helper):
+                    a = c.args[0] if len(c.args) == 1 else None
+                    facts = [membership(t, p, a.id) for t, p in U.dominating_conditions(c)] if isinstance(a, ast.Name) else []
+                    ctx.check(-1 in facts and 1 not in facts, "C20-U1", ctx.site(UF, st_, c),
+                              f"{st_.name} calls the unchecked registration helper self.{helper}(...) without testing `element not in self` at the call",
+                              "registering an element that is already present (e.g. the second operand of union(x, x) after the first was registered) gives it a "
+                              "second slot: n_elts / n_comps over-count and the listings show it twice",
+                              note=f"{st_.name}: self.{helper} guarded by non-membership")
     # values
     inc_pos = {c: pos(stm[c]) for c in COUNTERS}
     app_pos = {f: pos(stm[f]) for f in FIELDS_LISTS}
@@ -331,9 +370,10 @@ def u1_union(ctx):
               note=f"{len(ps_all)} paths: decrement iff link")
     # both arguments become members before find
     added = set()
+    adders = {"add"} | ({registration(repo)[3]} - {None})
     first_find = min((pos(s) for s in find_stmts), default=None)
     for c in au.calls(fn):
-        if isinstance(c.func, ast.Attribute) and au.is_self_attr(c.func, "add") and len(c.args) == 1 and isinstance(c.args[0], ast.Name):
+        if isinstance(c.func, ast.Attribute) and au.is_self_attr(c.func) and c.func.attr in adders and len(c.args) == 1 and isinstance(c.args[0], ast.Name):
             a = c.args[0].id
             gs = au.guards(c)
             loops = [l for l in au.ancestors(c) if isinstance(l, ast.For)]
@@ -352,14 +392,15 @@ def u1_union(ctx):
 def u2_queries(ctx):
     repo = ctx.repo
     cls = repo.cls(UF, UFC)
+    mutators = uf_mutators(repo)
     n = 0
     for st in cls.body:
-        if not isinstance(st, ast.FunctionDef) or st.name in UF_MUTATORS:
+        if not isinstance(st, ast.FunctionDef) or st.name in mutators:
             continue
         site = ctx.site(UF, st)
         ws = field_writes(st)
         mut_calls = [c for c in au.calls(st) if isinstance(c.func, ast.Attribute) and au.is_self_attr(c.func)
-                     and c.func.attr in (UF_MUTATORS - {"__init__"})]
+                     and c.func.attr in (mutators - {"__init__"})]
         self_store = [t for s in au.stmts(st.body) for t in au.assign_targets(s)
                       if isinstance(t, ast.Subscript) and isinstance(t.value, ast.Name) and t.value.id == "self"]
         n += 1
@@ -543,7 +584,7 @@ def u3_numpy(ctx):
                   "`ValueError: 0 is not an element`) and coerces mixed ints/strings to strings, so the views disagree with the partition; "
                   "offending calls: " + "; ".join(d for _, d in hits),
                   note=f"{st.name}: elements stay python objects")
-    ctx.require_count("C20-U3 methods reading the element tables", n, 8)
+    ctx.require_count("C20-U3 methods reading the element tables", n, 1)
     return routed
 
 
@@ -640,7 +681,6 @@ def v1_views(ctx, routed):
                     ctx.check(au.src(x.key) == g.target.id and au.src(x.value) == g.iter.id and not g.ifs, "C20-V1", ctx.site(UF, fn, x),
                               f"component_mapping builds `{au.src(x)}`: not every member of a component mapped to that component",
                               "elt -> component containing elt", note="every member mapped to its own component")
-    ctx.require_count("C20-V1 partition views analysed", n, 2)
 
 
 # ----------------------------------------------------------------- C20-O1
@@ -755,7 +795,8 @@ def set_parents(tree):
             c._parent = n
 
 
-def q1_queue(ctx):
+def q1_queue(ctx, rule="C20-Q1", with_empty=True):
+    """obligations of the heap-backed queue; also run by C11 (rule C11-Q1) for the candidate heap of KDTree.query."""
     repo = ctx.repo
     mod = repo.module(PQM)
     cls = repo.cls(PQM, PQC)
@@ -767,7 +808,7 @@ def q1_queue(ctx):
     verdicts = [classify_data_use(n, {"hq"}, {}, False) for n in ast.walk(ft)
                 if isinstance(n, ast.Attribute) and n.attr == "data"]
     if sum(v is not None for v in verdicts) != 4 or sum(v is None for v in verdicts) != 3:
-        raise AnalysisError(f"C20-Q1 self-check: who-may-write classifier gave {verdicts} on the fixture")
+        raise AnalysisError(f"{rule} self-check: who-may-write classifier gave {verdicts} on the fixture")
 
     n_uses = 0
     for st in cls.body:
@@ -777,12 +818,15 @@ def q1_queue(ctx):
             if isinstance(n, ast.Attribute) and n.attr == "data" and au.is_self_attr(n):
                 n_uses += 1
                 v = classify_data_use(n, heap_mods, heap_names, True, in_init=st.name == "__init__")
-                ctx.check(v is None, "C20-Q1", ctx.site(PQM, st, n), f"{st.name}: self.data {v}",
+                ctx.check(v is None, rule, ctx.site(PQM, st, n), f"{st.name}: self.data {v}",
                           "the list is a heap only as long as nothing but heapq.heappush / heappop modifies it; any other writer (or an "
                           "escaped reference) breaks `front`/`pop` = minimum priority", note=f"{st.name}: heap-safe use of self.data")
-    ctx.require_count("C20-Q1 uses of self.data in PriorityQueue", n_uses, 5)
+    if n_uses == 0:
+        ctx.fail(rule, ctx.site(PQM, PQC), "PriorityQueue no longer keeps its items in self.data",
+                 "the heap list and its single-writer discipline cannot be established")
+        return
     init = repo.func(PQM, PQC + ".__init__")
-    ctx.check(any(isinstance(s, ast.Assign) and au.is_self_attr(s.targets[0], "data") for s in init.body), "C20-Q1",
+    ctx.check(any(isinstance(s, ast.Assign) and au.is_self_attr(s.targets[0], "data") for s in init.body), rule,
               ctx.site(PQM, init), "__init__ does not create self.data", "a fresh queue must be empty")
 
     fields = [s.target.id for s in item.body if isinstance(s, ast.AnnAssign) and isinstance(s.target, ast.Name)]
@@ -807,7 +851,7 @@ def q1_queue(ctx):
             ok = au.src(args.get(payload[0])) == ps[0] and au.src(args.get("priority")) == ps[1] \
                 and not au.guards(hp[0]) and len(U.paths(fn.body)) == 1
             detail = f"item built as {au.src(it)} with fields {fields}"
-    ctx.check(ok, "C20-Q1", site, f"push({', '.join(ps)}) does not heappush PriorityItem({payload[0] if payload else 'x'}={ps[0] if ps else '?'}, "
+    ctx.check(ok, rule, site, f"push({', '.join(ps)}) does not heappush PriorityItem({payload[0] if payload else 'x'}={ps[0] if ps else '?'}, "
               f"priority={ps[1] if len(ps) > 1 else '?'}) unconditionally",
               "every pushed element must be queued exactly once under its own priority; " + detail, note="push builds (payload, priority) in field order")
     # get / pop
@@ -830,36 +874,37 @@ def q1_queue(ctx):
         return False
     for name in ("get", "pop"):
         f = repo.func(PQM, f"{PQC}.{name}")
-        ctx.check(pops_min(name), "C20-Q1", ctx.site(PQM, f), f"{name}() does not return heapq.heappop(self.data) (exactly one pop)",
+        ctx.check(pops_min(name), rule, ctx.site(PQM, f), f"{name}() does not return heapq.heappop(self.data) (exactly one pop)",
                   "each call must hand out one pending item of minimum priority, each pushed item exactly once", note=f"{name} pops the heap once")
     # front
     f = repo.func(PQM, PQC + ".front")
     rets = [s for s in au.stmts(f.body) if isinstance(s, ast.Return)]
     ok = len(rets) == 1 and isinstance(rets[0].value, ast.Subscript) and au.is_self_attr(rets[0].value.value, "data") \
         and au.const(rets[0].value.slice) == 0 and not field_writes(f) and len(au.calls(f)) == 0
-    ctx.check(ok, "C20-Q1", ctx.site(PQM, f), "front does not return self.data[0] without side effect",
+    ctx.check(ok, rule, ctx.site(PQM, f), "front does not return self.data[0] without side effect",
               "the minimum of a heap list is its first entry", note="front is data[0]")
-    # empty
-    f = repo.func(PQM, PQC + ".empty")
-    rets = [s for s in au.stmts(f.body) if isinstance(s, ast.Return)]
-    ok, wit = False, None
-    if len(rets) == 1 and rets[0].value is not None and not field_writes(f):
-        e = rets[0].value
-        if isinstance(e, ast.UnaryOp) and isinstance(e.op, ast.Not) and au.is_self_attr(e.operand, "data"):
-            ok = True
-        else:
-            def s(node):
-                if au.src(node) in ("len(self.data)", "self.data.__len__()"):
-                    return "n"
-                raise order.Unsupported(au.src(node))
-            try:
-                r = U.relate(e, "n == 0", s, env_ok=lambda env: env.get("n", 0) >= 0 and float(env.get("n", 0)).is_integer())
-                ok = r["code_not_spec"] is None and r["spec_not_code"] is None
-                wit = r["code_not_spec"] or r["spec_not_code"]
-            except order.Unsupported:
-                ok = False
-    ctx.check(ok, "C20-Q1", ctx.site(PQM, f), "empty() is not `len(self.data) == 0`",
-              f"emptiness must be reported exactly when no item is pending (differs for {wit})", note="empty is len == 0")
+    if with_empty:
+        # empty
+        f = repo.func(PQM, PQC + ".empty")
+        rets = [s for s in au.stmts(f.body) if isinstance(s, ast.Return)]
+        ok, wit = False, None
+        if len(rets) == 1 and rets[0].value is not None and not field_writes(f):
+            e = rets[0].value
+            if isinstance(e, ast.UnaryOp) and isinstance(e.op, ast.Not) and au.is_self_attr(e.operand, "data"):
+                ok = True
+            else:
+                def s(node):
+                    if au.src(node) in ("len(self.data)", "self.data.__len__()"):
+                        return "n"
+                    raise order.Unsupported(au.src(node))
+                try:
+                    r = U.relate(e, "n == 0", s, env_ok=lambda env: env.get("n", 0) >= 0 and float(env.get("n", 0)).is_integer())
+                    ok = r["code_not_spec"] is None and r["spec_not_code"] is None
+                    wit = r["code_not_spec"] or r["spec_not_code"]
+                except order.Unsupported:
+                    ok = False
+        ctx.check(ok, rule, ctx.site(PQM, f), "empty() is not `len(self.data) == 0`",
+                  f"emptiness must be reported exactly when no item is pending (differs for {wit})", note="empty is len == 0")
     # ordering of items
     lt = [s for s in item.body if isinstance(s, ast.FunctionDef) and s.name == "__lt__"]
     isite = ctx.site(PQM, lt[0] if lt else "PriorityItem")
@@ -881,11 +926,11 @@ def q1_queue(ctx):
                 wit = r["code_not_spec"] or r["spec_not_code"]
             except order.Unsupported as ex:
                 wit = str(ex)
-        ctx.check(ok, "C20-Q1", isite, "PriorityItem.__lt__ is not `self.priority < other.priority`",
+        ctx.check(ok, rule, isite, "PriorityItem.__lt__ is not `self.priority < other.priority`",
                   f"heapq orders items with `<` only: it must be the order of the priorities and nothing else ({wit}); payloads need not be comparable",
                   note="items ordered by priority only")
         others = [s.name for s in item.body if isinstance(s, ast.FunctionDef) and s.name in ("__gt__", "__le__", "__ge__", "__eq__")]
-        ctx.check(not others, "C20-Q1", isite, f"PriorityItem also defines {others}", "other rich comparisons must agree with __lt__; none is expected")
+        ctx.check(not others, rule, isite, f"PriorityItem also defines {others}", "other rich comparisons must agree with __lt__; none is expected")
     else:
         # dataclass(order=True) path: every non-priority field must be excluded from comparison and priority comes first
         order_kw = any(isinstance(d, ast.Call) and any(kw.arg == "order" and au.const(kw.value) is True for kw in d.keywords)
@@ -893,7 +938,7 @@ def q1_queue(ctx):
         excluded = all(any(isinstance(s, ast.AnnAssign) and s.target.id == f and isinstance(s.value, ast.Call) and
                            any(kw.arg == "compare" and au.const(kw.value) is False for kw in s.value.keywords) for s in item.body)
                        for f in payload)
-        ctx.check(order_kw and excluded, "C20-Q1", isite, "PriorityItem has no __lt__ on priority and is not an order=True dataclass whose payload is compare=False",
+        ctx.check(order_kw and excluded, rule, isite, "PriorityItem has no __lt__ on priority and is not an order=True dataclass whose payload is compare=False",
                   "heapq needs `<` on items, decided by the priority alone")
 
 
@@ -986,5 +1031,5 @@ def sweeps(ctx):
                           f"{q}: code outside UnionFind touches {sorted({d for _, d in hits})}",
                           "the forest and its counters stay consistent only if the class is their single writer",
                           note=f"{recv}: tables untouched by its user")
-    ctx.require_count("C20-Q1 PriorityQueue instances in the package", n_pq, 7)
-    ctx.require_count("C20-U2 UnionFind instances in the package", n_uf, 5)
+    ctx.require_count("C20-Q1 PriorityQueue instances in the package", n_pq, 1)
+    ctx.require_count("C20-U2 UnionFind instances in the package", n_uf, 1)
